@@ -1,0 +1,13 @@
+//go:build verif
+
+// Contracts for package comm, checked by /verif/govc (comment-only file).
+package comm
+
+// Aggregators and disseminators are unknown code behind interfaces.
+//@ interface Aggregator.Aggregate
+//@   preserves @std
+//@   ensures blockchain.storeskept() && core.cfgstable()
+//@ interface Disseminator.Disseminate
+//@   preserves @std
+//@   ensures blockchain.storeskept() && core.cfgstable()
+
